@@ -723,6 +723,141 @@ func TestLargeResponses(t *testing.T) {
 	}, func(c largeCase) bool { return c.Members >= 12 })
 }
 
+// ---- a server that has been idle still answers ----------------------------------------------------------------
+//
+// The bursts are over in well under a second. A server loop that arms a deadline on its socket (a read timeout to
+// look at its quit channel, a write timeout for a response) is in a different state after seconds without
+// traffic: one request is answered, nothing is sent for 2.6 s or 6.2 s (beyond the library's 2 s and 5 s
+// timeouts of today), and a second request - from a new client socket, on a new connection for TCP - must be
+// answered like the first. All cases run at once, each with a server of its own.
+
+type idleCase struct {
+	Kind   string `json:"server"` // llmnr, udp, server, tcp
+	IdleMS int    `json:"idle_ms"`
+}
+
+func runIdle(c idleCase) []vf.Finding {
+	idle := time.Duration(c.IdleMS) * time.Millisecond
+	if c.Kind == "llmnr" {
+		handler := llmnr.HandlerFunc(func(s *llmnr.Server, remote net.Addr, w llmnr.ResponseWriter, m *llmnr.Message) bool {
+			r := llmnr.CreateResponseFromMessage(m)
+			for _, q := range m.Questions {
+				r.AddAnswerClassINTypeA(q.Name, "10.77.0.9")
+			}
+			w.WriteMessage(r)
+			return true
+		})
+		srv, err := llmnr.NewServer("udp4", []llmnr.Handler{handler})
+		if err != nil {
+			return []vf.Finding{vf.F("harness", "cannot-create-llmnr-server", "%v", err)}
+		}
+		conn, err := net.ListenUDP("udp4", &net.UDPAddr{IP: net.IPv4(127, 0, 0, 1)})
+		if err != nil {
+			return []vf.Finding{vf.F("harness", "cannot-listen", "%v", err)}
+		}
+		srv.Conn, srv.Address = conn, conn.LocalAddr().(*net.UDPAddr)
+		to := conn.LocalAddr().(*net.UDPAddr)
+		served := make(chan error, 1)
+		go func() { served <- srv.Serve() }()
+		defer func() {
+			srv.Close()
+			select {
+			case <-served:
+			case <-time.After(stopBudget):
+			}
+		}()
+		ask := func(id uint16) bool {
+			sock, err := net.ListenUDP("udp4", &net.UDPAddr{IP: net.IPv4(127, 0, 0, 1)})
+			if err != nil {
+				return false
+			}
+			defer sock.Close()
+			q := llmnr.NewMessage()
+			q.ID = id
+			q.AddQuestion("idle-host.test", llmnr.TypeA, llmnr.ClassIN)
+			wire, _ := q.Encode()
+			for try := 0; try < 3; try++ {
+				sock.WriteToUDP(wire, to)
+				sock.SetReadDeadline(time.Now().Add(700 * time.Millisecond))
+				buf := make([]byte, 1024)
+				n, from, err := sock.ReadFromUDP(buf)
+				if err != nil || from.Port != to.Port {
+					continue
+				}
+				if m, err := llmnr.DecodeMessage(buf[:n]); err == nil && m.ID == id && m.IsResponse() {
+					return true
+				}
+			}
+			return false
+		}
+		if !ask(0x4001) {
+			return []vf.Finding{vf.F("llmnr.Server", "request-never-answered", "the first request to a fresh server")}
+		}
+		time.Sleep(idle)
+		if !ask(0x4002) {
+			return []vf.Finding{vf.F("llmnr.Server", "no-answer-after-idle-period", "a request %v after the previous one (which was answered) got no response in three tries", idle)}
+		}
+		return nil
+	}
+	srv, err := startServer(c.Kind)
+	if err != nil {
+		return []vf.Finding{vf.F("harness", "cannot-start-server", "%v", err)}
+	}
+	defer srv.srv.Stop()
+	ask := func(id uint16) (bool, string) {
+		cl, err := dial(srv)
+		if err != nil {
+			return false, err.Error()
+		}
+		defer cl.close()
+		// a query for a name nobody registered: answered with a name error, under its id
+		p, ok := cl.exchange(req{ID: id, Opcode: 0, QName: "IDLEPROBE"}, 700*time.Millisecond)
+		return ok && p.ID == id && p.Flags&0x8000 != 0, "no response"
+	}
+	if ok, why := ask(0x4101); !ok {
+		return []vf.Finding{vf.F(c.Kind, "request-never-answered", "the first request to a fresh server: %s", why)}
+	}
+	time.Sleep(idle)
+	if ok, why := ask(0x4102); !ok {
+		return []vf.Finding{vf.F(c.Kind, "no-answer-after-idle-period", "a request %v after the previous one (which was answered): %s", idle, why)}
+	}
+	return nil
+}
+
+func TestAnswersAfterIdle(t *testing.T) {
+	s := vf.Begin(t, P, "answers-after-idle")
+	var cases []idleCase
+	for _, k := range []string{"llmnr", "udp", "server", "tcp"} {
+		for _, ms := range []int{2600, 6200} {
+			cases = append(cases, idleCase{k, ms})
+		}
+	}
+	results := make([][]vf.Finding, len(cases))
+	index := map[idleCase]int{}
+	if _, shards := vf.Shard(); shards <= 1 && !vf.Replaying() {
+		var wg sync.WaitGroup
+		for i, c := range cases {
+			index[c] = i
+			wg.Add(1)
+			go func(i int, c idleCase) {
+				defer wg.Done()
+				results[i] = vf.Safe("panic", func() []vf.Finding { return runIdle(c) })
+			}(i, c)
+		}
+		wg.Wait()
+	}
+	vf.Enum(s, func(yield func(idleCase)) {
+		for _, c := range cases {
+			yield(c)
+		}
+	}, func(c idleCase) []vf.Finding {
+		if i, ok := index[c]; ok {
+			return results[i]
+		}
+		return runIdle(c)
+	}, nil)
+}
+
 // ---- LLMNR server: every response answers its own request --------------------------------------------------
 
 type llmnrCase struct {
